@@ -10,6 +10,7 @@ lets CPython execute its *real body* on symbolic proxies.  The complete list of 
  R7  `*args` parameter -> ordinary parameter `args`; call `f(a, *b)` -> `__vc.apply(f, (a,), b)`
  R8  `super()` -> `__vc.super_(self)`
  R9  annotations, decorators, docstring removed
+ R11 `"<literal>".join(e)` -> `__vc.str_join("<literal>", e)` (same result on concrete operands)
 Builtins (len, max, set, list, isinstance, bool ...) and imported names (copy, wait, asyncio, logger ...) are *not*
 rewritten: they are looked up in the namespace the function is compiled in, where the engine binds them.
 """
@@ -194,6 +195,11 @@ class _Expr(ast.NodeTransformer):
         self.generic_visit(n)
         if isinstance(n.func, ast.Name) and n.func.id == "super" and not n.args:
             return _call("super_", ast.Name(self.self_name or "self", ast.Load()))
+        # R11: "<sep>".join(e)  ->  __vc.str_join("<sep>", e)   (a method of a str LITERAL cannot be intercepted otherwise;
+        # on concrete operands the helper calls the real str.join)
+        if (isinstance(n.func, ast.Attribute) and n.func.attr == "join" and isinstance(n.func.value, ast.Constant) and isinstance(n.func.value.value, str)
+                and len(n.args) == 1 and not n.keywords and not isinstance(n.args[0], ast.Starred)):
+            return _call("str_join", n.func.value, n.args[0])
         if any(isinstance(a, ast.Starred) for a in n.args) or any(k.arg is None for k in n.keywords):
             pos, star = [], None
             for a in n.args:
